@@ -149,7 +149,9 @@ def seq_plan(prop, tier, seed):
     ops = 150 if tier == "quick" else 300
     plan = []
     for p in spec["profiles"]:
-        for i in range(per):
+        # the slow profiles (deep layer chains, long drains) get fewer sequences
+        n = per if p not in ("long", "drain") else max(2, per // 3)
+        for i in range(n):
             plan.append((p, seed * 1000 + i, ops))
     if tier == "thorough":
         plan.append(("big", seed, 0))
